@@ -1,4 +1,5 @@
 mod cmd_lin;
+mod cmd_wtstages;
 mod cmd_backend;
 mod cmd_det;
 mod cmd_robust;
@@ -116,6 +117,7 @@ fn main() {
         "lin" => cmd_lin::cmd_lin(num(2, 1), num(3, 100) as usize, &mut *out, args.get(5..).unwrap_or(&[])),
         "check" => cmd_check::cmd_check(num(2, 1), num(3, 0) as usize, args.get(5..).unwrap_or(&[]), &mut *out),
         "shrink" => cmd_shrink::cmd_shrink(num(2, 1), num(3, 0) as usize, args.get(5..).unwrap_or(&[]), &mut *out),
+        "wt-stages" => cmd_wtstages::cmd_wtstages(num(2, 1), num(3, 0) as usize, args.get(5..).unwrap_or(&[]), &mut *out),
         "stages" => cmd_stages::cmd_stages(num(2, 1), num(3, 0) as usize, args.get(5..).unwrap_or(&[]), &mut *out),
         "focus" => cmd_focus::cmd_focus(num(2, 1), num(3, 0) as usize, args.get(5..).unwrap_or(&[]), &mut *out),
         "fun2core" => cmd_fun2core::cmd_fun2core(num(2, 1), num(3, 0) as usize, args.get(5..).unwrap_or(&[]), &mut *out),
